@@ -59,6 +59,7 @@ SCENARIOS = [
     ('idm', r'HeartBeater_dtor|GetHeartBeater', r'exit-order|heartbeat|flag', 'id-exit-order', 1),
     ('epoch', r'CreateEpochGuard|Forward|Collect', r'C04|heartbeat|pinned|tracked', 'epoch-id-reuse', 1),
     ('epoch', r'EpochGuard_operator_assign', r'keeps-its-pin|move-transfers', 'epoch-guard-reassign', 4),
+    ('epoch', r'EpochGuard_operator_assign', r'overwritten-guard-stops-pinning', 'epoch-guard-foreign-assign', 4),
     ('epoch', r'nested_guards', r'nested', 'epoch-nested-guard', 4),
     ('epoch', r'GetProtectedEpochs$|EnterEpoch', r'pre\.node-of-pinned-epoch-linked|pins-an-epoch', 'enter-epoch-stall', 4),
     ('epoch', r'GetProtectedEpochs', r'lookup|right-node|guard-and-its-list', 'lookup-stall', 4),
